@@ -357,6 +357,59 @@ def explicit_false_survives_reregistration(col, contract):
                 del contract.disagreements[:]
 
 
+def exact_registration_widened_later(col, contract):
+    """a type first registered with exact=True and later registered again WITHOUT it is, from then on, "a type registered without
+    exact=True": it covers its subclasses - also a subclass that was looked up in between (and memoised with whatever it fell back
+    to), also when the second call names the very same handler objects.  (The opposite order is left open by the statement.)"""
+    import glom as glom_pkg
+    for kind in ('Glommer', 'Glommer-without-defaults', 'module-level'):
+        for same_handler in (True, False):
+            for warm in ('not-looked-up', 'child-looked-up', 'child-looked-up-through-every-op'):
+                class Base:
+                    def __init__(self):
+                        self.x = 'attr'
+
+                    def __iter__(self):
+                        return iter(['own-iter'])
+
+                class Child(Base):
+                    pass
+
+                class Sibling(Base):
+                    pass
+                h1 = lambda o, k: 'handler-1'
+                h2 = lambda o, k: 'handler-2'
+                it1 = lambda o: iter(['registered-iter'])
+                if kind == 'module-level':
+                    reg, run = glom_pkg.register, glom_pkg.glom
+                else:
+                    g = Glommer(register_default_types=(kind == 'Glommer'))
+                    reg, run = g.register, g.glom
+                reg(Base, get=h1, iterate=it1, exact=True)
+                if warm != 'not-looked-up':
+                    call(run, Child(), 'x')
+                    if warm.endswith('every-op'):
+                        call(run, Child(), [T])
+                        call(run, Child(), Path('x'))
+                reg(Base, get=h1 if same_handler else h2, iterate=it1)
+                tag = 'handler-1' if same_handler else 'handler-2'
+                for cls in (Child, Sibling, Base):
+                    for op, spec, want in (('get', 'x', tag), ('get', Path('x'), tag), ('iterate', [T], ['registered-iter'])):
+                        got = call(run, cls(), spec)
+                        col.case(('exact-then-widened', kind, same_handler, warm, cls.__name__, op), True)
+                        col.count('api_lookups')
+                        col.count('widened_registration_lookups')
+                        if not (got.ok and got.value == want):
+                            col.violation('C13/type-registered-without-exact-does-not-cover-a-subclass:after-an-exact-registration:%s' % op,
+                                          '%s: register(Base, get=h1, iterate=it, exact=True); %s; register(Base, get=%s, iterate=it) - now %r on a %s '
+                                          'instance gives %r, expected %r' % (kind, {'not-looked-up': 'no lookups', 'child-looked-up': "glom(Child(), 'x')"}.get(
+                                              warm, 'Child() looked up for get and iterate'), 'h1' if same_handler else 'h2', spec, cls.__name__, got, want), None)
+            if contract.disagreements:
+                d = contract.disagreements[0]
+                col.violation('C13/contract:%s:exact-then-widened' % d['op'], 'get_handler post-condition failed: %s' % (d,), d)
+                del contract.disagreements[:]
+
+
 def ephemeral_classes(col, contract):
     """classes created at run time, looked up once and dropped (and collected), in turn of different kinds, on ONE registry
     without any register() call in between: each lookup is decided by the class at hand, whatever was looked up before at
@@ -627,6 +680,7 @@ def run(ctx):
             reregistration(col, contract)
             repeated_registration(col, contract)
             explicit_false_survives_reregistration(col, contract)
+            exact_registration_widened_later(col, contract)
             ephemeral_classes(col, contract)
             created_levels_use_the_calls_registry(col)
         fams = families()
